@@ -340,3 +340,20 @@ pub proof fn lemma_alt_reads_gt_le<'s>(v: Version, w: Version, tail: Seq<char>, 
     lemma_pair_text_is_two_text(Operation::GreaterThan, v, " <="@, Operation::LessThanEquals, w, tail);
     lemma_alt_reads_two(Operation::GreaterThan, v, Operation::LessThanEquals, w, tail, i, o, rest);
 }
+// the four two-sided shapes against the interval that was printed
+pub proof fn lemma_alt_reads_two_sided<'s>(bs: BoundSet, tail: Seq<char>, i: &'s str, o: Vec<BoundSet>, rest: &'s str)
+    requires bs_wf(bs), version_ok(*bs.lower), version_ok(*bs.upper), *bs.lower != Bound::Lower(Predicate::Unbounded), *bs.upper != Bound::Upper(Predicate::Unbounded),
+        // (the shape `v`, printed when both ends are the same version, is lemma_alt_reads_exact)
+        !(*bs.lower matches Bound::Lower(Predicate::Including(v)) && *bs.upper matches Bound::Upper(Predicate::Including(w)) && ver_cmp(v, w) == Ordering::Equal),
+        ends_alternative(tail), i@ == bs_text(bs) + tail, range_acc(i, o, rest),
+    ensures rest@ == tail, forall|x: VKey| #![trigger any_within(o@, o@.len() as int, x)] any_within(o@, o@.len() as int, x) <==> within(bs, x),
+{
+    broadcast use lemma_k_flip;
+    match (*bs.lower, *bs.upper) {
+        (Bound::Lower(Predicate::Including(v)), Bound::Upper(Predicate::Including(w))) => { lemma_alt_reads_ge_le(v, w, tail, i, o, rest); },
+        (Bound::Lower(Predicate::Including(v)), Bound::Upper(Predicate::Excluding(w))) => { lemma_alt_reads_ge_lt(v, w, tail, i, o, rest); },
+        (Bound::Lower(Predicate::Excluding(v)), Bound::Upper(Predicate::Including(w))) => { lemma_alt_reads_gt_le(v, w, tail, i, o, rest); },
+        (Bound::Lower(Predicate::Excluding(v)), Bound::Upper(Predicate::Excluding(w))) => { lemma_alt_reads_gt_lt(v, w, tail, i, o, rest); },
+        _ => {},
+    }
+}
